@@ -144,7 +144,7 @@ def call : Nat → Ctx → Val → Val → Res
           | .str p =>
             if c.compiling then fail
             else ((match lookupFile W.fs p with | some _ => some Val.data | none => none), [.did .readFile p])
-          | .data => (none, [.unmodelled])                          -- may be a string computed by a native
+          | .data | .src _ => (none, [.unmodelled])                 -- a string whose text the model does not track
           | _ => fail)
         else
           -- any other native: an opaque step exercising `cap`
